@@ -178,7 +178,8 @@ inductive DistOutcome where
   | belowRandom   -- `S < S_rand`: the documented ValueError
   | zeroDivision  -- `S_max = S_rand`: float division by zero
   | infinite      -- `S = S_rand`: `−ln 0 = ∞`, refused later by `upgma`
-  | notANumber    -- ratio negative: `ln` of a negative number
+  | notANumber    -- ratio negative: `ln` of a negative number; refused by `upgma` (nan ≠ nan: "must be symmetric")
+  | negative      -- `S > S_max`: ratio > 1, negative distance; refused by `upgma` ("Distances must be positive")
   | finite
   deriving DecidableEq, Repr
 
@@ -188,6 +189,7 @@ def distOutcome (d : DistIn) : DistOutcome :=
   else if d.den = 0 then .zeroDivision
   else if d.num = 0 then .infinite
   else if d.den < 0 then .notANumber
+  else if d.den < d.num then .negative
   else .finite
 
 /-- the formula has a (finite, real) value: denominator non-zero and the argument of `ln` positive -/
